@@ -64,7 +64,7 @@ def main() -> None:
         text = schemas[sid]
         if not text.startswith("FILES:"):
             return P.get_fcp_from_string(text, logger) if logger is not None else P.get_fcp_from_string(text)
-        d = work / f"tree_{sid}"
+        d = Path(f"tree_{sid}")
         for rel, body in json.loads(text[6:]).items():
             fp = d / rel
             fp.parent.mkdir(parents=True, exist_ok=True)
@@ -78,6 +78,7 @@ def main() -> None:
     obs = []
     log = []
     work = Path(tempfile.mkdtemp(prefix="simfcp-c17w-", dir=scratch_base()))
+    os.chdir(work)          # files are named by paths RELATIVE to here, so that the path text is the same in every process
     try:
         for oi, op in enumerate(w["ops"]):
             kind = op[0]
@@ -96,8 +97,8 @@ def main() -> None:
                         trees[op[1]] = r.unwrap()
                         from_file.add(op[1])
                 elif kind == "parse_file":
-                    d = work / f"s{oi}"
-                    d.mkdir()
+                    d = Path(f"files_{op[1]}")
+                    d.mkdir(exist_ok=True)
                     (d / "main.fcp").write_text(schemas[op[1]])
                     r = P.get_fcp(str(d / "main.fcp"))
                     if r.is_ok():
@@ -162,7 +163,9 @@ def main() -> None:
                         from_file.discard(sid)
                     out = work / f"out{oi}"
                     buf = io.StringIO()
-                    rec = {"op": oi, "generator": g, "schema": sid, "reused": reused, "disk": disk}
+                    # where the tree came from is part of the input (nodes carry their source file name)
+                    rec = {"op": oi, "generator": g, "schema": sid, "reused": reused, "disk": disk,
+                           "origin": "file" if (reused and sid in from_file and not schemas[sid].startswith("FILES:")) else "string"}
                     try:
                         with contextlib.redirect_stdout(buf):
                             if g == "reflection":
